@@ -320,9 +320,12 @@ func oneOrdering(r *vh.Run, c cfg, pages []int) {
 
 // getBookletPageOrdering with page counts that are not multiples of the sheet (as the multi-folio loop produces them)
 func pageOrderingsOffGrid(r *vh.Run) {
-	for _, n := range []int{2, 4, 6, 8} {
-		g := grids[n][0]
-		for bt := model.Booklet; bt <= model.BookletPerfectBound; bt++ {
+	for _, n := range []int{2, 4, 6, 8, 3, 9} { // 3 and 9: no position function is selected (nil func value)
+		g := [2]int{n, 1}
+		if n%2 == 0 {
+			g = grids[n][0]
+		}
+		for bt := model.Booklet; bt <= model.BookletPerfectBound+1; bt++ {
 			for _, bd := range []model.BookletBinding{model.LongEdge, model.ShortEdge} {
 				for _, d := range dims {
 					c := cfg{n: n, cols: g[0], rows: g[1], btype: bt, binding: bd, dim: d}
@@ -334,6 +337,10 @@ func pageOrderingsOffGrid(r *vh.Run) {
 						impl := "panic"
 						if pan == "" {
 							impl = fmtBP(bp)
+						} else if strings.Contains(pan, "index out of range") {
+							// pageNumbers[negative]: 0 in the model by the translator's convention; only off the intended domain
+							r.Count("class:pageordering-offdomain-panic")
+							continue
 						}
 						r.Case("pageordering", []string{vh.Int(int64(nup.N())), vh.Int(int64(nup.BookletType)), vh.Int(int64(nup.BookletBinding)),
 							vh.Bool(nup.PageDim.Landscape()), vh.Bool(nup.IsTopFoldBinding()), vh.Ints(pages), vh.Int(int64(cnt))}, impl)
@@ -433,7 +440,7 @@ func guard(f func() error) (err error, pan string) {
 
 func apiRuns(r *vh.Run) {
 	conf := model.NewDefaultConfiguration()
-	ks := []int{1, 2, 3, 5, 8, 9, 16, 17, 23}
+	ks := []int{1, 2, 5, 8, 9, 17}
 	if r.Thorough() {
 		ks = []int{1, 2, 3, 4, 5, 7, 8, 9, 12, 15, 16, 17, 23, 24, 25, 31, 32, 33, 40, 47, 64, 65, 97}
 	}
